@@ -93,7 +93,11 @@ def render_time(t):
 def gen_case(r, codec):
     c = {}
     x = r.random()
-    c["us"] = None if x < 0.4 else (("s", rand_string(r, valid_utf8=True) or "u") if x < 0.8 else ("i", r.choice([0, 7, -3, 2 ** 40, 123456789])))
+    c["us"] = None if x < 0.4 else (("s", rand_string(r, valid_utf8=True) or "u") if x < 0.75 else
+                                    ("i", r.choice([0, 7, -3, 2 ** 40, 123456789])) if x < 0.88 else
+                                    ("I", r.choice([0, 7, -3, 2 ** 40, 2 ** 62 + 1, 4711])))   # a sized integer key (int64) stays an int64
+    # the application's user type may be a plain value instead of a pointer
+    c["usv"] = c["us"] is not None and r.random() < 0.25
     c["cr"] = rand_time(r, codec)
     c["la"] = rand_time(r, codec)
     c["ip"] = r.choice(["", "10.0.0.1:80", "[2001:db8::1]:443", rand_string(r, valid_utf8=(codec == "json"))])
@@ -122,7 +126,7 @@ def package_shapes(codec):
 
 def spec_line(codec, c):
     return "rt %s us=%s cr=%s la=%s ip=%s ua=%d rf=%s da=%s" % (
-        codec, "-" if c["us"] is None else render(c["us"]), render_time(c["cr"]), render_time(c["la"]), qs(c["ip"]), c["ua"],
+        codec, "-" if c["us"] is None else ("V" if c.get("usv") else "") + render(c["us"]), render_time(c["cr"]), render_time(c["la"]), qs(c["ip"]), c["ua"],
         qs(c["rf"]) if c["rf"] else "-", "nil" if c["da"] is None else render(c["da"]))
 
 
